@@ -105,11 +105,14 @@ class DiagonalGridSearchOptimizer(BaseOptimizer):
                 self.nth_trial,
                 self.high_dim_pointer % self.step_size,
             )
+            # nth_trial points were issued so far; the pass is finished when
+            # this count (times step_size) has just crossed a multiple of the
+            # search space size
             current_pass_finished = (
-                (self.nth_trial + 1)
+                self.nth_trial * self.step_size // self.conv.search_space_size
+                > (self.nth_trial - 1)
                 * self.step_size
                 // self.conv.search_space_size
-                > self.nth_trial * self.step_size // self.conv.search_space_size
             )
             # Begin the next pass if current is finished.
             if current_pass_finished:
